@@ -32,7 +32,7 @@ struct Node {
 };
 
 std::string PROP;
-bool M_C03 = false, M_C04 = false, M_C16 = false;
+bool M_C03 = false, M_C04 = false, M_C16 = false, M_C05 = false;
 const DomEntry *DOM = nullptr;
 std::string DOMNAME, CFGNAME, FLAVOR = "direct";
 std::vector<HOp> ALPHA;
@@ -563,6 +563,35 @@ void pool_pairs(std::vector<PoolVal> &pool) {
       auto rep = [&](const std::string &clause, const std::string &detail) {
         vp::viol(DOMNAME + ":pair:" + clause, spec, "[" + DOMNAME + " " + CFGNAME + "] " + ctx + " => " + detail);
       };
+      if (M_C05) {
+        // C05: the ascending iteration of the fixpoint engine for a loop whose body always yields B, started from A:
+        //   acc := A; repeat { nw := acc | B; if nw <= acc stop; acc := acc || nw }
+        // must become stationary (by the domain's own inclusion test) within a small number of steps.
+        try {
+          n_pairs++;
+          for (int variant = 0; variant < 2; variant++) { // 0: plain widening, 1: widening with thresholds
+            std::unique_ptr<DomBox> acc = a.box->clone();
+            bool stationary = false;
+            int k = 0;
+            for (; k < 40; k++) {
+              std::unique_ptr<DomBox> nw = acc->clone();
+              Op oj; oj.kind = O_JOIN;
+              nw->apply(oj, b.box.get());
+              n_ops++;
+              if (nw->leq(*acc)) { stationary = true; break; }
+              Op ow; ow.kind = variant ? O_WIDEN_T : O_WIDEN; ow.thresholds = 1;
+              acc->apply(ow, nw.get());
+              n_ops++;
+            }
+            if (!stationary)
+              rep(std::string("C05:widening-chain-not-stationary") + (variant ? ":thresholds" : ""),
+                  "acc := A; repeat acc := acc || (acc | B) is not stationary after 40 steps; acc = " + acc->print());
+          }
+        } catch (std::runtime_error &e) {
+          if (!is_unsupported("pair", e.what())) rep("abort", e.what());
+        }
+        continue;
+      }
       try {
         n_pairs++;
         bool le = a.box->leq(*b.box);
@@ -618,6 +647,7 @@ int main(int argc, char **argv) {
   M_C03 = PROP == "C03";
   M_C04 = PROP == "C04";
   M_C16 = PROP == "C16";
+  M_C05 = PROP == "C05";
   bool th = vp::args().thorough();
   std::string only = vp::args().opt.count("domains") ? vp::args().opt["domains"] : "";
   std::string mode = vp::args().opt.count("mode") ? vp::args().opt["mode"] : "dfs";
